@@ -482,6 +482,31 @@ func capturedErrLost(f *ssa.Function, e ssa.Value, via []helperStore) string {
 					}
 				}
 			}
+			// `return rec.result()`: an accessor of the record that hands the field out as its own error result
+			if ex, ok := r.Results[pei].(*ssa.Extract); ok {
+				if call, ok := ex.Tuple.(*ssa.Call); ok {
+					g := call.Common().StaticCallee()
+					if g != nil && g.Blocks != nil && errIdx(g) == ex.Index {
+						for k, a := range call.Call.Args {
+							l2, ok := a.(*ssa.UnOp)
+							if !ok || l2.Op != token.MUL || l2.X != ssa.Value(cell) || k >= len(g.Params) {
+								continue
+							}
+							allInstrs(g, func(_ *ssa.BasicBlock, gin ssa.Instruction) {
+								gr, ok := gin.(*ssa.Return)
+								if !ok || ex.Index >= len(gr.Results) {
+									return
+								}
+								if gu, ok := gr.Results[ex.Index].(*ssa.UnOp); ok && gu.Op == token.MUL {
+									if gfa, ok := gu.X.(*ssa.FieldAddr); ok && gfa.Field == hs.field && gfa.X == ssa.Value(g.Params[k]) {
+										returned = true
+									}
+								}
+							})
+						}
+					}
+				}
+			}
 		})
 		if !returned {
 			return "the error is kept in a field of the captured record " + cell.Comment + " but " + funcName(par) + " never returns that field as its error"
